@@ -120,6 +120,7 @@ NEEDS = {
  "C20-H": "two threads of the same instantiation inside a breakdown restart (expand_basis) at the same time",
 }
 OUTSIDE = {
+ "C04-H": "Davidson only: the selection clause of C04 for the Davidson solver is decided in the C15 check by design (rule ReturnedIsWanted there), which catches it",
  "C14-F": "outside the fault model of C14 (the user's operator THROWS): here it returns Inf once and the library's own B wrapper turns that into a sticky failure",
  "C17-F": "outside the quantifier of C17 (inputs and configurations, random full-rank initial blocks): needs a second compute() on the same object",
  "C20-E": "the concurrent, sequential and fresh-process executions agree unless a near-breakdown residual falls between two n-dependent thresholds; "
@@ -187,7 +188,7 @@ for sid in sorted(os.listdir(os.path.join(ROOT, "seeded"))):
         json.dump(meta, open(mp, "w"), indent=1)
     rows.append((sid, "yes" if own else ("NOT RUN" if not m else "no" + (" - " + OUTSIDE[sid] if sid in OUTSIDE else "")), ", ".join(rules)))
 with open(os.path.join(ROOT, "seeded", "DETECTION.md"), "w") as fh:
-    fh.write("# Seeded changes against the final checks\n\nOne scratch worktree of /repo HEAD per seed (`tools/seedrun.sh <seed>`: git apply, `VERIF_REPO=<worktree> python3 tools/check.py <property> --tier quick`, worktree removed).\n\n")
+    fh.write("# Seeded changes against the final checks\n\nRounds 1-2 (A-D): results of the session-3 sweep; rounds 3-4 (E-H): swept in session 4 against the checks as committed at its end.\n\nOne scratch worktree of /repo HEAD per seed (`tools/seedrun.sh <seed>`: git apply, `VERIF_REPO=<worktree> python3 tools/check.py <property> --tier quick`, worktree removed).\n\n")
     fh.write("| seed | caught by the property's own quick check | rules that fired |\n|---|---|---|\n")
     for r in rows:
         fh.write("| %s | %s | %s |\n" % r)
